@@ -51,7 +51,8 @@ type c04Cfg struct {
 	rcvS, rcvC int
 	maxS, maxC int
 	depth      int
-	bigLen     int // sendbig: size of a blocking Write
+	bigLen     int  // sendbig: size of a blocking Write
+	wide       bool // thorough tier: larger argument domains
 }
 
 // c04Snd receives the streamSender callbacks of the send halves (recvSide=false) or of the
